@@ -61,6 +61,23 @@ def check_scheme(out, sub, sa, boundary, fvals, tag):
         err = np.max(np.abs(vals.reshape(ref.shape) - ref))
         if not (err <= 1e-9 * scale):
             out.bad(sub + "/interpolant-misses-function-at-grid-point", "%s max err %.3e over %d points" % (tag, err, len(pts)))
+        # the second documented entry point: the interpolant on a tensor grid (values in cross-product order); only when
+        # the enclosing tensor grid of the combined grid is small, and with boundary points (the interpolant outside the
+        # outermost interior points is not part of the statement)
+        coords1d = [sorted(set(p[d] for p in pts)) for d in range(dim)]
+        ntensor = 1
+        for c in coords1d:
+            ntensor *= len(c)
+        if boundary and ntensor <= 4000 and hasattr(sa, "interpolate_grid"):
+            with drive.quiet():
+                on_grid = np.asarray(sa.interpolate_grid(coords1d))
+            pos = {p: i for i, p in enumerate(itertools.product(*coords1d))}
+            got = np.array([np.ravel(on_grid[pos[p]]) for p in pts])
+            err2 = np.max(np.abs(got.reshape(ref.shape) - ref)) if got.size == ref.size else float("inf")
+            if not (err2 <= 1e-9 * scale):
+                out.bad(sub + "/interpolate_grid-misses-function-at-grid-point", "%s max err %.3e over %d points (tensor grid %s)" % (
+                    tag, err2, len(pts), [len(c) for c in coords1d]))
+            out.cls("interpolate_grid-checked")
     return len(pts)
 
 
